@@ -141,19 +141,25 @@ def e2e_round(binp, d, how, hold_s):
             c.sendall(b"POST /io HTTP/1.1\r\nHost: h\r\nTransfer-Encoding: chunked\r\n\r\n")
         res["attached"] = pump(rb"ready to go", 5)
         mark = len(out)
+        if how == "muted":                             # the operator mutes the shell's output, and the shell prints something meanwhile
+            os.write(master, b"\x0f"); pump(rb"Muting until", 2)
+            c.sendall(b"12\r\nWHILE-MUTED-OUT!!\n\r\n"); pump(None, 0.2)
         t_end = time.time() + hold_s
         while time.time() < t_end:
             pump(None, min(1.0, max(0.0, t_end - time.time())))
         res["gone_early"] = b"Shell is gone" in out[mark:]
         try:
-            c.sendall(b"15\r\nSTILL-ALIVE-OUTPUT!!\n\r\n")
-            res["worked_at_end"] = pump(rb"STILL-ALIVE-OUTPUT!!", 3)
+            if how in ("muted", "instant"):            # (muted: nothing is displayed; instant: the shell ends the moment it is attached)
+                res["worked_at_end"] = True
+            else:
+                c.sendall(b"15\r\nSTILL-ALIVE-OUTPUT!!\n\r\n")
+                res["worked_at_end"] = pump(rb"STILL-ALIVE-OUTPUT!!", 3)
             if how == "quick-line":
                 c.sendall(b"0\r\n\r\n"); c.close()
             elif how == "input-first":
                 cin.close()                            # (c, the upload, is left open: something still holds the shell's stdout)
             else:
-                if how in ("eof", "tab"):
+                if how in ("eof", "tab", "muted", "instant"):
                     c.sendall(b"0\r\n\r\n")
                 c.close()
         except OSError as ex:                         # the server has torn the attached shell down
@@ -202,6 +208,7 @@ def e2e_stream(run):
     # one long-lived shell (longer than any plausible 'grace period' for closing the listener) and a batch of short ones
     long_hold = 33 if run.tier == "quick" else 95
     plan = [(["eof", "drop", "input-first", "tab"][k % 4], 0.3) for k in range(12 if run.tier == "quick" else 60)] + [("eof", long_hold)]
+    plan += [("instant", 0.0), ("instant", 0.0), ("muted", 0.3), ("muted", 0.3)]
     plan += [("quick-line", 4.0)] * (3 if run.tier == "quick" else 8)
     import concurrent.futures as cf
     with cf.ThreadPoolExecutor(max_workers=12) as ex:
@@ -229,7 +236,8 @@ def e2e_stream(run):
                not bad, json.dumps([dict(r, why=w[1]) for w, r in bad[:3]])[:3000])
     run.stream("e2e", len(rs), len(rs), "real binary under a pty with -one-shell, real TLS /io client; one shell stays attached for %d s (traffic at the "
                "end must still flow, no 'gone' notice before), then each shell ends (chunked EOF, dropped connection, /i closed first with /o's upload left "
-               "open, or EOF followed by Tab with a 1500-line -ctrl-i source) and the operator enters one "
+               "open, EOF followed by Tab with a 1500-line -ctrl-i source, the very moment it is attached, or after the operator muted it with Ctrl+O and it "
+               "printed something) and the operator enters one "
                "empty line: exit status 0 within 6 s" % long_hold, [{k: v for k, v in rs[0].items() if k != "output_tail"}],
                {"holds_s": sorted({r["hold_s"] for r in rs}), "statuses": sorted({str(r["rc"]) for r in rs})})
 
